@@ -250,6 +250,24 @@ Proof.
   destruct (ticks es <? T + 5) eqn:E; [apply W1; lia | apply W2; lia].
 Qed.
 
+(* ------------------------------------------------------------------ the 16-bit TTL field is a real hypothesis *)
+(* TTL 65537: the frame carries 65537 mod 65536 = 1, the BBMD keeps the entry for 1+5 ticks while the
+   device, acknowledged, believes in 65537 s *)
+Lemma ttl_over_16_bits_witness :
+  exists me T f' b d es s',
+    foreign_register (mkForeign (-1) None None None None) (b_addr b) T = Ok f' /\
+    inv me T (mkPair f' b) /\ round_fine me T (d, es) /\ (65536 <= T)%Z /\
+    pair_run me [(d, es)] (mkPair f' b) = Ok s' /\
+    f_status (p_dev s') = 0%Z /\ listed (b_fdt (p_bbmd s')) me = false.
+Proof.
+  exists (mkA 180879400 47808), 65537%Z. eexists.
+  exists (mkBbmd (mkA 167837954 47808) [] [] true), 0%Z, [BTick; BTick; BTick; BTick; BTick; BTick]. eexists.
+  split; [reflexivity|]. split.
+  - apply (register_gives_inv _ 65537%Z (mkForeign (-1) None None None None)); [reflexivity|constructor].
+  - split; [split; [cbn; lia|split; [repeat constructor|vm_compute; reflexivity]]|].
+    split; [lia|]. split; [vm_compute; reflexivity|]. split; vm_compute; reflexivity.
+Qed.
+
 (* ------------------------------------------------------------------ Original-Broadcast at a foreign device *)
 (* whatever its state: nothing is handed up, nothing is sent, nothing changes (the copy that counts
    is the Forwarded-NPDU from its BBMD) — and nothing else the device hears on its own wire from a
